@@ -15,6 +15,7 @@ CUSTOM = [
     ["custom", ["\u3000", "\u2503", "\u2517\u2501\u27a4", "\u2523\u2501\u27a4", "\u2517\u2533\u27a4", "\u2523\u2533\u27a4"]],
     ["custom", ["\U0001f7e6", "\U0001f7e5", "\U0001f534", "\U0001f535"]],     # 1 code point each, astral plane
     ["customlist", ["a", "b", "c", "d", "e", "f"]],                          # passed as a Python list
+    ["customlist", ["  ", "| ", "`-", "+-"]],                                # a 4-element list (must not be changed by format)
 ]
 # legal custom tuples whose segments have UNEQUAL widths: decoding is not promised for them (not style_ok), but every
 # line still is "segments along the ancestor flags + own segment + rendering" (general prefix oracle)
@@ -101,10 +102,13 @@ def apply_ops(tree, ops, U, typed):
     return applied
 
 
-def random_ops(rng, k):
+RESTRUCTURE = ["move", "move_top", "remove_keep", "move", "move_top", "remove_keep", "remove", "sort", "add_leaf"]
+
+
+def random_ops(rng, k, names=OPS):
     ops = []
     for _ in range(k):
-        name = rng.choice(OPS)
+        name = rng.choice(names)
         a, b = rng.randrange(1000), rng.randrange(1000)
         if name in ("remove", "remove_keep", "remove_children"):
             ops.append([name, a])
@@ -162,6 +166,22 @@ def segments(st):
         segs = CONNECTORS.get(st[1])
         return None if segs is None else list(segs)
     return list(st[1]) if len(st[1]) in (4, 6) else None
+
+
+class _Raiser:
+    """stands for a generator whose creation already raised: the error is reported when it is consumed"""
+    def __init__(self, e):
+        self.e = e
+
+    def __iter__(self):
+        raise self.e
+
+
+def lazily(fn):
+    try:
+        return fn()
+    except Exception as e:  # noqa: BLE001
+        return _Raiser(e)
 
 
 def lines_obs(fn):
@@ -240,14 +260,18 @@ class Prop:
     coq_prop = "Properties/C16.v"
     case_module = "CaseC16"
     case_vo = "theories/Cases/CaseC16.vo"
-    run_fn = "run16"
+    run_fn = "run16m"
     shard = 8
     rule = ("every ordered forest shape with <= N nodes (quick N=4, thorough N=5) with every style of the table, the default, '', 'list', 4 custom "
-            "4-/6-tuples incl. astral-plane code points and 6 malformed styles; every (N+1)-node shape with a rotating quarter (quick) / third (thorough) of the styles; "
-            "plus seeded random deep/wide trees of 6..24 nodes (quick 30, thorough 300); every 5th case gives all nodes ONE data object "
-            "(siblings equal but not identical); 22 fixed + 24 (quick) / 200 (thorough) random MUTATION HISTORIES (remove, remove(keep_children), "
+            "4-/6-tuples incl. astral-plane code points and 6 malformed styles; every (N+1)-node shape with a rotating fifth (quick) / third (thorough) of the styles; "
+            "plus seeded random deep/wide trees of 6..24 nodes (quick 24, thorough 180); every 5th case gives all nodes ONE data object "
+            "(siblings equal but not identical); 22 fixed + 24 (quick) / 110 (thorough) random MUTATION HISTORIES (remove, remove(keep_children), "
             "remove_children, move_to, clear + re-add, sort, filter, add) applied before formatting with compact styles, custom 6-tuples and "
-            "ragged tuples; 4 custom tuples with UNEQUAL segment widths everywhere (exact-prefix oracle, no decoding); per (tree, style): Tree.format_iter "
+            "ragged tuples; 8 fixed + 12 (quick) / 60 (thorough) SESSIONS on one tree object with one Python object per style: format everything, "
+            "restructure above the start nodes (move_to, remove(keep_children), ...) while the caller swaps two connectors of its list styles "
+            "in place, format everything again AND consume the format_iter() generators created before the restructuring (they must show "
+            "the tree as it is when consumed), caller's style objects compared with a snapshot after every phase; "
+            "4 custom tuples with UNEQUAL segment widths everywhere (exact-prefix oracle, no decoding); per (tree, style): Tree.format_iter "
             "for title in {default, False, True, text, ''}, Node.format_iter for EVERY node as start with add_self on/off, "
             "format(join=j) for the tree and every node; repr as format string, callable or the class default; plain and typed trees; "
             "data strings that themselves look like connectors.  distinct = distinct (shape, style set, repr mode, typed); "
@@ -279,7 +303,7 @@ class Prop:
     )
 
     # ----- generation
-    def _desc(self, shape, styles, i, typed=False, ops=None):
+    def _desc(self, shape, styles, i, typed=False, ops=None, phases=None):
         same = (i % 5 == 2)     # all nodes carry the same data object: siblings are == but not identical
         nodes = B.shape_to_nodes(shape, lambda k, d, s: ((i if same else k * 5 + i) % len(UNIV), ("k%d" % (k % 2)) if typed else None, f"id{k}"))
         n = B.nodes_size(nodes)
@@ -288,7 +312,7 @@ class Prop:
         starts = None if n <= 6 else sorted({0, n // 6, n // 3, n // 2, 2 * n // 3, 5 * n // 6, n - 1})
         return dict(typed=typed, univ=UNIV, nodes=nodes, name="T%d" % (i % 3), styles=styles,
                     repr=REPR_MODES[i % 3], title=TITLE_TEXT, join=JOINS[i % len(JOINS)], starts=starts,
-                    **({"ops": ops} if ops else {}))
+                    **({"ops": ops} if ops else {}), **({"phases": phases} if phases else {}))
 
     def descs(self, tier, rng):
         yield from CORPUS
@@ -304,7 +328,7 @@ class Prop:
                 i += 2
         # one size further: every shape with a rotating third of the styles
         for j, shape in enumerate(H.forests(nfull + 1)):
-            step = 4 if tier == "quick" else 3
+            step = 5 if tier == "quick" else 3
             sub = [everything[(j + step * k) % len(everything)] for k in range(len(everything) // step + 1)]
             yield self._desc(shape, sub, i, typed=(i % 7 == 3))
             i += 1
@@ -315,13 +339,27 @@ class Prop:
         for j, (shape, ops) in enumerate(HIST_SEEDS):
             yield self._desc(shape, hist_styles, 3 * j, typed=(j % 5 == 4), ops=ops)
             i += 1
-        for j in range(24 if tier == "quick" else 200):
+        for j in range(24 if tier == "quick" else 110):
             shape = H.random_shape(rng, rng.randint(3, 10), deep=rng.choice([0.3, 0.6, 0.9]))
             ops = random_ops(rng, rng.randint(1, 5))
             sub = rng.sample(hist_styles[:8], 4) + rng.sample(hist_styles[8:], 1)
             yield self._desc(shape, sub, rng.randrange(1000), typed=rng.random() < 0.2, ops=ops)
             i += 1
-        nrand = 30 if tier == "quick" else 300
+        # SESSIONS: format - restructure the same tree object (mostly above the start nodes) - format again, with the
+        # generators of the previous phase consumed after the restructuring and one style object per style reused
+        sess_styles = [["default"], ["name", "ascii22"], ["name", "lines32c"], ["name", "round43c"], CUSTOM[0], CUSTOM[4],
+                       CUSTOM[3], RAGGED[3], ["name", "list"]]
+        for j, (shape, pre, phases) in enumerate(SESSION_SEEDS):
+            sub = sess_styles if tier != "quick" else [sess_styles[k] for k in (0, 2 + j % 2, 4, 5, 6 + j % 2, 8)]
+            yield self._desc(shape, sub, 3 * j + 1, typed=(j % 4 == 3), ops=pre, phases=phases)
+            i += 1
+        for j in range(12 if tier == "quick" else 60):
+            shape = H.random_shape(rng, rng.randint(4, 9), deep=rng.choice([0.6, 0.9]))
+            phases = [random_ops(rng, rng.randint(1, 3), RESTRUCTURE) for _ in range(rng.choice([1, 1, 2]))]
+            sub = [sess_styles[0]] + rng.sample(sess_styles[1:4], 1) + rng.sample(sess_styles[4:8], 2)
+            yield self._desc(shape, sub, rng.randrange(1000), typed=rng.random() < 0.25, phases=phases)
+            i += 1
+        nrand = 24 if tier == "quick" else 180
         for _ in range(nrand):
             n = rng.randint(6, 24)
             shape = H.random_shape(rng, n, deep=rng.choice([0.3, 0.6, 0.9]))
@@ -333,6 +371,12 @@ class Prop:
         ops = desc.get("ops") or []
         for k in range(len(ops)):
             yield dict(desc, ops=ops[:k] + ops[k + 1:])
+        phases = desc.get("phases") or []
+        for k in range(len(phases)):
+            if len(phases) > 1:
+                yield dict(desc, phases=phases[:k] + phases[k + 1:])
+            for m in range(len(phases[k])):
+                yield dict(desc, phases=phases[:k] + [phases[k][:m] + phases[k][m + 1:]] + phases[k + 1:])
         if len(desc["styles"]) > 1:
             for st in desc["styles"]:
                 yield dict(desc, styles=[st])
@@ -341,29 +385,117 @@ class Prop:
 
     # ----- one case
     def run(self, desc) -> Case:
+        """One case = one tree object and ONE Python object per style, used for a sequence of phases:
+        phase 0 formats the tree built from desc['nodes'] (+ desc['ops']); every further phase (desc['phases'][k] = ops)
+        first lets the caller edit its list styles in place, restructures the SAME tree, formats everything again, and
+        also consumes the format_iter() generators that were created in the previous phase (late consumption: on the
+        unchanged code a generator does nothing before its first next(), so it must show the tree as it is now)."""
         typed = bool(desc.get("typed"))
         U = B.make_universe(desc["univ"])
         tree = (H.TypedTree if typed else H.Tree)(desc["name"])
         B.add_nodes(tree._root, desc["nodes"], U, typed)
         n_applied = apply_ops(tree, desc.get("ops") or [], U, typed)
-        nodes = B.all_nodes(tree._root)
         mode = desc["repr"]
         if mode == "fmt":
             rarg = "{node.data}"
-            rend = {id(n): f"{n._data}" for n in nodes}
         elif mode == "call":
             rarg = lambda n: f"<{n.data}>#{len(n.children)}"  # noqa: E731
-            rend = {id(n): f"<{n._data}>#{len(n._children or [])}" for n in nodes}
         else:
             rarg = None
-            rend = {id(n): (f"{n.kind} \u2192 {n._data}" if typed else f"{n._data!r}") for n in nodes}
         join = desc["join"]
         ttext = desc["title"]
         titles = [None, False, True, ttext, ""]
-        if desc.get("starts") is None:
+        cur = [[st[0]] + [list(x) if isinstance(x, list) else x for x in st[1:]] for st in desc["styles"]]
+        objs = [style_arg(st) for st in cur]          # caller-owned style objects, reused for every call of the case
+        phases = desc.get("phases") or []
+        cls = "TypedTree" if typed else "Tree"
+
+        coq_cases, all_obs, fail, late = [], [], None, None
+        depth = max_sibs = n_nodes = 0
+        for ph in range(len(phases) + 1):
+            if ph > 0:
+                for k, st in enumerate(cur):      # the caller swaps the last / not-last connectors of its list styles
+                    if st[0] == "customlist" and len(st[1]) >= 4:
+                        st[1][2], st[1][3] = st[1][3], st[1][2]
+                        objs[k][2], objs[k][3] = st[1][2], st[1][3]
+                n_applied += apply_ops(tree, phases[ph - 1], U, typed)
+            nodes = B.all_nodes(tree._root)
+            if mode == "fmt":
+                rend = {id(n): f"{n._data}" for n in nodes}
+            elif mode == "call":
+                rend = {id(n): f"<{n._data}>#{len(n._children or [])}" for n in nodes}
+            else:
+                rend = {id(n): (f"{n.kind} \u2192 {n._data}" if typed else f"{n._data!r}") for n in nodes}
+            snodes, jnodes = self.select(nodes, desc.get("starts"))
+            obs = [self.observe(tree, snodes, jnodes, a, rarg, titles, join) for a in objs]
+            variants = [("", obs)]
+            if late is not None:
+                obs_late = []
+                for k, o in enumerate(obs):
+                    lt = late[k]
+                    if lt is None:
+                        obs_late.append(o)
+                        continue
+                    nd = [[lines_obs(lambda: lt["nd"][id(n)][0]), lines_obs(lambda: lt["nd"][id(n)][1])]
+                          if id(n) in lt["nd"] else o[1][i] for i, n in enumerate(snodes)]
+                    obs_late.append([[lines_obs(lambda: it) for it in lt["tr"]], nd, o[2], o[3],
+                                     [lines_obs(lambda: it) for it in lt["sr"]]])
+                variants.append(("generator created before the restructuring, consumed after it: ", obs_late))
+            for tag, ob in variants:
+                for st, o in zip(cur, ob):
+                    if fail:
+                        break
+                    f = self.oracle(tree, snodes, jnodes, rend, st, o, titles, join, typed)
+                    if f:
+                        fail = f"phase {ph}: {tag}{f} [style {st}]"
+            for st, a in zip(cur, objs):          # the caller's objects must be left alone
+                if not fail and st[0] in ("custom", "customlist"):
+                    want = tuple(st[1]) if st[0] == "custom" else list(st[1])
+                    if a != want:
+                        fail = f"phase {ph}: the caller's style object {want!r} was changed by format(): it is now {a!r} [style {st}]"
+            # generators for the next phase: created now, consumed after the restructuring
+            if ph < len(phases):
+                late = []
+                for st, a in zip(cur, objs):
+                    if st[0] == "customlist":
+                        late.append(None)        # edited by the caller in between: not specified, not checked
+                        continue
+                    late.append(dict(
+                        tr=[lazily(lambda: tree.format_iter(repr=rarg, style=a, title=ti)) for ti in titles],
+                        nd={id(n): [lazily(lambda: n.format_iter(repr=rarg, style=a, add_self=True)),
+                                    lazily(lambda: n.format_iter(repr=rarg, style=a, add_self=False))] for n in snodes},
+                        sr=[lazily(lambda: tree.system_root.format_iter(repr=rarg, style=a, add_self=True)),
+                            lazily(lambda: tree.system_root.format_iter(repr=rarg, style=a, add_self=False))]))
+            # what is compared with the model: full text for title default/False and the joined text, hashes for the rest
+            full = len(nodes) <= 3
+            hl, ht = ((lambda x: x), (lambda x: x)) if full else (hlines, htext)
+            rends = H.coq_list(f"({H.nid(n)}, {H.coq_text(rend[id(n)])})" for n in nodes)
+            for vi, (_tag, ob) in enumerate(variants):
+                # the late-consumed lines are all checked by the oracle; with the model the first two styles are compared
+                nst = len(cur) if vi == 0 else min(2, len(cur))
+                ob = ob[:nst]
+                coq_cases.append(
+                    f"(mk16 {H.coq_forest(tree._root, U)} {rends} {H.coq_text(cls)} {H.coq_text(desc['name'])} "
+                    f"{H.coq_list(coq_style(s) for s in cur[:nst])} {H.coq_text(ttext)} {H.coq_text(join)} "
+                    f"{H.coq_list(str(H.nid(n)) for n in snodes)} {H.coq_list(str(H.nid(n)) for n in jnodes)} {H.coq_bool(full)})")
+                all_obs.append([[tr[:2] + [hl(x) for x in tr[2:]], [[hl(a), hl(b)] for a, b in nd], tj,
+                                 [[ht(x), ht(y)] for x, y in nj], [hl(x) for x in sr]] for tr, nd, tj, nj, sr in ob])
+            depth = max(depth, ptr_depth(tree._root))
+            max_sibs = max([max_sibs] + [len(p._children or []) for p in [tree._root] + nodes])
+            n_nodes = max(n_nodes, len(nodes))
+        return Case(desc=desc, coq_input=H.coq_list(coq_cases), impl_obs=all_obs, oracle_fail=fail,
+                    nontrivial=(depth >= 2 or max_sibs >= 2),
+                    key=H.digest([B_shape(desc["nodes"]), desc.get("ops"), phases, desc["styles"], desc["repr"], typed]),
+                    stats=dict(nodes=n_nodes, depth=depth, max_sibs=max_sibs, styles=len(desc["styles"]), repr=mode, typed=typed,
+                               ops=len(desc.get("ops") or []) + sum(len(x) for x in phases), ops_applied=n_applied,
+                               phases=len(phases) + 1))
+
+    @staticmethod
+    def select(nodes, starts):
+        if starts is None:
             snodes = list(nodes)
         else:
-            idx = {k for k in desc["starts"] if 0 <= k < len(nodes)}
+            idx = {k for k in starts if 0 <= k < len(nodes)}
             if nodes:
                 def pdepth(x):      # by pointers, not by the API under test
                     d = 0
@@ -375,44 +507,19 @@ class Prop:
                 idx |= {deepest} | {k for k, x in enumerate(nodes) if x is nodes[deepest]._parent}
             snodes = [nodes[k] for k in sorted(idx)]
         jnodes = snodes[:1] + snodes[-1:] if len(snodes) > 2 else list(snodes)
+        return snodes, jnodes
 
-        obs = []
-        for st in desc["styles"]:
-            a = style_arg(st)
-            tr = [lines_obs(lambda: tree.format_iter(repr=rarg, style=a, title=ti)) for ti in titles]
-            nd = [[lines_obs(lambda: n.format_iter(repr=rarg, style=a, add_self=True)),
-                   lines_obs(lambda: n.format_iter(repr=rarg, style=a, add_self=False))] for n in snodes]
-            tj = text_obs(lambda: tree.format(repr=rarg, style=a, join=join))
-            nj = [[text_obs(lambda: n.format(repr=rarg, style=a, join=join)),
-                   text_obs(lambda: n.format(repr=rarg, style=a, join=join, add_self=False))] for n in jnodes]
-            sr = [lines_obs(lambda: tree.system_root.format_iter(repr=rarg, style=a, add_self=True)),
-                  lines_obs(lambda: tree.system_root.format_iter(repr=rarg, style=a, add_self=False))]
-            obs.append([tr, nd, tj, nj, sr])
-
-        fail = None
-        for st, o in zip(desc["styles"], obs):
-            fail = self.oracle(tree, snodes, jnodes, rend, st, o, titles, join, typed)
-            if fail:
-                fail = f"{fail} [style {st}]"
-                break
-
-        # what is compared with the model: full text for title default/False and the joined text, hashes for the rest
-        full = len(nodes) <= 3
-        hl, ht = ((lambda x: x), (lambda x: x)) if full else (hlines, htext)
-        obs = [[tr[:2] + [hl(x) for x in tr[2:]], [[hl(a), hl(b)] for a, b in nd], tj, [[ht(x), ht(y)] for x, y in nj],
-                [hl(x) for x in sr]] for tr, nd, tj, nj, sr in obs]
-        rends = H.coq_list(f"({H.nid(n)}, {H.coq_text(rend[id(n)])})" for n in nodes)
-        cls = "TypedTree" if typed else "Tree"
-        coq = (f"(mk16 {H.coq_forest(tree._root, U)} {rends} {H.coq_text(cls)} {H.coq_text(desc['name'])} "
-               f"{H.coq_list(coq_style(s) for s in desc['styles'])} {H.coq_text(ttext)} {H.coq_text(join)} "
-               f"{H.coq_list(str(H.nid(n)) for n in snodes)} {H.coq_list(str(H.nid(n)) for n in jnodes)} {H.coq_bool(full)})")
-        depth = ptr_depth(tree._root)
-        max_sibs = max([len(p._children or []) for p in [tree._root] + nodes])
-        return Case(desc=desc, coq_input=coq, impl_obs=obs, oracle_fail=fail,
-                    nontrivial=(depth >= 2 or max_sibs >= 2),
-                    key=H.digest([B_shape(desc["nodes"]), desc.get("ops"), desc["styles"], desc["repr"], typed]),
-                    stats=dict(nodes=len(nodes), depth=depth, max_sibs=max_sibs, styles=len(desc["styles"]), repr=mode, typed=typed,
-                               ops=len(desc.get("ops") or []), ops_applied=n_applied))
+    @staticmethod
+    def observe(tree, snodes, jnodes, a, rarg, titles, join):
+        tr = [lines_obs(lambda: tree.format_iter(repr=rarg, style=a, title=ti)) for ti in titles]
+        nd = [[lines_obs(lambda: n.format_iter(repr=rarg, style=a, add_self=True)),
+               lines_obs(lambda: n.format_iter(repr=rarg, style=a, add_self=False))] for n in snodes]
+        tj = text_obs(lambda: tree.format(repr=rarg, style=a, join=join))
+        nj = [[text_obs(lambda: n.format(repr=rarg, style=a, join=join)),
+               text_obs(lambda: n.format(repr=rarg, style=a, join=join, add_self=False))] for n in jnodes]
+        sr = [lines_obs(lambda: tree.system_root.format_iter(repr=rarg, style=a, add_self=True)),
+              lines_obs(lambda: tree.system_root.format_iter(repr=rarg, style=a, add_self=False))]
+        return [tr, nd, tj, nj, sr]
 
     # ----- the property statement, executed directly on the emitted lines and the pointer structure
     def oracle(self, tree, nodes, jnodes, rend, st, o, titles, join, typed):
@@ -604,6 +711,19 @@ HIST_SEEDS = [
     (_L2, [["remove_keep", 1]]), (_L2, [["remove_keep", 0]]), (_L2, [["move", 1, 4, 0], ["remove_keep", 2]]),
 ]
 
+# sessions: (shape, ops before the first formatting, [ops of phase 1, ops of phase 2, ...])
+_S1 = ((((((),), ()), ()),), ())          # A(a1(a11(x(x1), y), a12)), B : pre-order A0 a1 1 a11 2 x3 x1 4 y5 a12 6 B7
+SESSION_SEEDS = [
+    (_S1, None, [[["move_top", 1, 0]]]),                         # an ancestor of the start nodes moves up
+    (_S1, None, [[["remove_keep", 0]]]),                         # an ancestor is removed, its children kept
+    (_S1, None, [[["move", 7, 2, 0], ["move", 5, 7, 0]]]),      # a start node gets deeper, then receives a child
+    (_S1, None, [[["move", 2, 7, 0]], [["move_top", 2, 1]]]),   # moved down, then up again (two restructurings)
+    (_S1, None, [[["remove_keep", 1]], [["remove_keep", 0]]]),
+    (_L2, None, [[["remove_keep", 2]], [["add_leaf", 1, 3]]]),
+    (_S1, [["move_top", 2, 0]], [[["move", 2, 0, 1]]]),
+    (_L3, None, [[]]),                                           # nothing changes: only the caller edits its list styles
+]
+
 CORPUS = [
     # D35: list style with a title rendered the system root as a line
     dict(typed=False, univ=UNIV, nodes=[[0, None, None, [[1, None, None, []]]], [4, None, None, []]], name="T0",
@@ -611,3 +731,8 @@ CORPUS = [
 ]
 
 PROP = Prop()
+
+import parts  # noqa: E402
+import parts_misc  # noqa: E402
+
+parts.attach(PROP, parts_misc.PRINT)   # Tree.print (model Forest/MiscPrint.v, theorems at the end of Properties/C16.v)
